@@ -632,10 +632,14 @@ func heapOverlayEval(c *Ctx, raw []byte) {
 				}
 				c.Dist("heap-overlay:snap")
 			case "merged":
+				before := layerWire()
 				var m dom.Node
 				m = w.ov.Merged(c04Opts(op.Opt)...)
 				w.push(m)
 				w.emit(map[string]any{"s": "merged", "opt": op.Opt})
+				// "a per-layer lookup sees only that layer's writes": reading the merged view is not a write
+				c.Direct("layers-unchanged-by-reading-the-merged-view", layerWire() == before,
+					map[string]any{"layers before": json.RawMessage(before), "layers after": json.RawMessage(layerWire())})
 				checkSnaps("Merged")
 			case "wsnap":
 				if len(snaps) == 0 {
@@ -1186,6 +1190,14 @@ func heapPatchOpEval(c *Ctx, raw []byte) {
 				if o.ValueFrom != nil && hsHasPrefix(parent, o.ValueFrom) {
 					continue // adding a location's value below that location, repeatedly: kept to single executions
 				}
+				if o.ValueFrom != nil {
+					// the same by object identity: if an earlier execution left the document aliased, the
+					// destination may lie inside the source along another path; a second iteration would then
+					// run on a cyclic document (the pipeline's own Snapshot() recursion is not recoverable)
+					if src := root.Lookup(*vfStr); src != nil && hsReaches(src, hsEval(root, parent), map[uintptr]bool{}) {
+						continue
+					}
+				}
 				w.wire(root)
 				if !c.Direct(hsFinite, w.fin, map[string]any{"before": o}) {
 					return
@@ -1305,8 +1317,251 @@ func heapPatchOpEval(c *Ctx, raw []byte) {
 	hsFinish(c, w, "heapPatchOp")
 }
 
+// hsReaches: target is the node from, or an object below it.
+func hsReaches(from, target dom.Node, seen map[uintptr]bool) bool {
+	if from == nil || target == nil || from.IsLeaf() {
+		return false
+	}
+	id := nodeID(from)
+	if id == nodeID(target) {
+		return true
+	}
+	if seen[id] {
+		return false
+	}
+	seen[id] = true
+	if from.IsContainer() {
+		for _, ch := range from.(dom.Container).Children() {
+			if hsReaches(ch, target, seen) {
+				return true
+			}
+		}
+		return false
+	}
+	for _, it := range from.(dom.List).Items() {
+		if hsReaches(it, target, seen) {
+			return true
+		}
+	}
+	return false
+}
+
 // hpIndependent: two subtrees have no container / list object in common.
 func hpIndependent(c *Ctx, w *hsWorld, clause string, a, b dom.Node, o hpOp) {
+	var ma, mb []hsMut
+	hsMutables(a, nil, map[uintptr]bool{}, 0, &ma)
+	hsMutables(b, nil, map[uintptr]bool{}, 0, &mb)
+	ids := map[uintptr][]string{}
+	for _, m := range mb {
+		ids[nodeID(m.n)] = m.nav
+	}
+	for _, m := range ma {
+		if nav, shared := ids[nodeID(m.n)]; shared {
+			c.Direct(clause, false, map[string]any{"op": o, "at": m.nav, "is the other's": nav})
+			return
+		}
+	}
+	c.Direct(clause, true, nil)
+}
+
+// ------------------------------------------------------------------ C13: heap-setop
+
+type hsSetRun struct {
+	Path []string `json:"path"`          // dotted path components ([] = root)
+	Via  string   `json:"via,omitempty"` // "" same op object again | "literal" new SetOp sharing Data | "clone" CloneWith
+}
+
+type hsSetOp struct {
+	Payload  W          `json:"payload"`
+	Strategy string     `json:"strategy"` // merge | replace
+	Runs     []hsSetRun `json:"runs"`
+}
+
+type heapSetOpCase struct {
+	Doc   W         `json:"doc"`
+	Build int       `json:"build"`
+	Ops   []hsSetOp `json:"ops"`
+	Salt  int       `json:"salt"`
+}
+
+func heapSetOpGen(c *Ctx, n int) {
+	r := c.Rng
+	g := c09Gen()
+	g.Keys = []string{"a", "b", "c", "k1", "x-y", "z_9"}
+	for i := 0; i < n; i++ {
+		c.Tick()
+		doc := g.Doc(r)
+		var conts [][]string
+		var walk func(w W, p []string)
+		walk = func(w W, p []string) {
+			if m, ok := wireCont(w); ok {
+				conts = append(conts, p)
+				for _, k := range sortedKeys(m) {
+					walk(m[k], append(append([]string{}, p...), k))
+				}
+			}
+		}
+		walk(doc, nil)
+		var ops []hsSetOp
+		for j := 0; j < 1+r.Intn(3); j++ {
+			o := hsSetOp{Payload: g.Cont(r, 1+r.Intn(2)), Strategy: pick(r, []string{"merge", "merge", "replace"})}
+			for k := 0; k < 2+r.Intn(2); k++ {
+				base := c09Clone(pick(r, conts))
+				var p []string
+				switch r.Intn(5) {
+				case 0:
+					p = base // an existing container (merge meets it), or the root
+				default:
+					p = append(base, pick(r, []string{"n1", "n2", "n3", "a", "b"}))
+					if r.Intn(4) == 0 {
+						p = append(p, pick(r, []string{"d1", "d2"}))
+					}
+				}
+				o.Runs = append(o.Runs, hsSetRun{Path: p, Via: pick(r, []string{"", "", "literal", "clone"})})
+			}
+			ops = append(ops, o)
+		}
+		c.Do("heap-setop", heapSetOpCase{Doc: doc, Build: hsTreeBuild(r), Ops: ops, Salt: r.Intn(1 << 16)})
+	}
+}
+
+func hsLookupPlain(root dom.Container, comps []string) dom.Node {
+	var cur dom.Node = root
+	for _, t := range comps {
+		if cur == nil || !cur.IsContainer() {
+			return nil
+		}
+		cur = cur.(dom.Container).Children()[t]
+	}
+	return cur
+}
+
+func heapSetOpEval(c *Ctx, raw []byte) {
+	var p heapSetOpCase
+	if err := json.Unmarshal(raw, &p); err != nil {
+		panic(err)
+	}
+	if _, ok := wireCont(p.Doc); !ok || !hsPlainKeys(p.Doc) || p.Build < 0 || p.Build >= heapBuildModes || p.Build == 5 {
+		return
+	}
+	var w *hsWorld
+	out, txt := guard(func() {
+		w = newHsWorld(c)
+		dn, ok := hsBuild(hsInit{W: p.Doc, Build: p.Build}, map[string]dom.Node{})
+		root, isB := dn.(dom.ContainerBuilder)
+		if !ok || !isB {
+			w = nil
+			return
+		}
+		w.addInit(root)
+		reruns := 0
+		for i, o := range p.Ops {
+			pm, isC := wireCont(o.Payload)
+			if !isC || !hsPlainKeys(o.Payload) || (o.Strategy != "merge" && o.Strategy != "replace") {
+				continue
+			}
+			_ = pm
+			data := wirePlain(o.Payload).(map[string]any)
+			dataBefore := canon(plainWire(data))
+			st := pipeline.SetStrategy(o.Strategy)
+			base := &pipeline.SetOp{Data: data, Strategy: &st}
+			type placed struct {
+				reg  int
+				path []string
+			}
+			var placedRegs []placed
+			for k, run := range o.Runs {
+				if !hsPlainPath(run.Path) {
+					continue
+				}
+				op := base
+				if run.Via == "literal" || run.Via == "clone" {
+					cp := *base
+					op = &cp
+				}
+				op.Path = strings.Join(run.Path, ".")
+				w.wire(root)
+				if !c.Direct(hsFinite, w.fin, map[string]any{"before": o}) {
+					return
+				}
+				var tag, ptxt string
+				if run.Via == "clone" {
+					tag, ptxt = c13ExecVia(root, op, "clone")
+				} else {
+					tag, ptxt = c13Exec(root, op)
+				}
+				w.emit(map[string]any{"s": "setOp", "r": 0, "merge": o.Strategy == "merge", "p": orEmpty(strsAny(run.Path)), "d": o.Payload})
+				w.outs = append(w.outs, tag)
+				c.Dist("heap-setop:" + o.Strategy + "=" + tag)
+				if !c.Direct("no-panic", tag != "panic", ptxt) || !c.Direct("set-no-error", tag == "ok", ptxt) {
+					return
+				}
+				if k > 0 {
+					reruns++
+				}
+				if len(run.Path) > 0 {
+					if tgt := hsLookupPlain(root, run.Path); tgt != nil {
+						r := w.push(tgt)
+						w.emit(map[string]any{"s": "eval", "r": 0, "p": strsAny(run.Path)})
+						placedRegs = append(placedRegs, placed{r, run.Path})
+					}
+				}
+			}
+			// "Each operation changes only its target location": what one execution placed shares no
+			// container / list object with what another execution of the same op placed, and an edit
+			// below one location shows nowhere else — nor in the op's Data
+			for a := 0; a < len(placedRegs); a++ {
+				for b := a + 1; b < len(placedRegs); b++ {
+					if hsHasPrefix(placedRegs[a].path, placedRegs[b].path) || hsHasPrefix(placedRegs[b].path, placedRegs[a].path) {
+						continue
+					}
+					na, nb := w.regs[placedRegs[a].reg], w.regs[placedRegs[b].reg]
+					if hsLookupPlain(root, placedRegs[a].path) != na || hsLookupPlain(root, placedRegs[b].path) != nb {
+						continue
+					}
+					if o.Strategy == "replace" {
+						hsSetIndependent(c, "payloads-placed-by-re-executions-share-no-mutable-object", na, nb, o)
+					}
+				}
+			}
+			for a := range placedRegs {
+				if (p.Salt+i+a)%2 != 0 || hsLookupPlain(root, placedRegs[a].path) != w.regs[placedRegs[a].reg] {
+					continue
+				}
+				others := map[int]string{}
+				for b := range placedRegs {
+					if b != a && !hsHasPrefix(placedRegs[a].path, placedRegs[b].path) && !hsHasPrefix(placedRegs[b].path, placedRegs[a].path) &&
+						hsLookupPlain(root, placedRegs[b].path) == w.regs[placedRegs[b].reg] {
+						others[b] = canon(w.wire(w.regs[placedRegs[b].reg]))
+					}
+				}
+				if w.probe(placedRegs[a].reg, p.Salt+i+a) {
+					for b, was := range others {
+						now := canon(w.wire(w.regs[placedRegs[b].reg]))
+						c.Direct("edit-below-one-set-location-changes-only-that-location", now == was,
+							map[string]any{"op": o, "edited": placedRegs[a].path, "changed too": placedRegs[b].path})
+					}
+					c.Direct("op's-Data-unchanged-by-edits-of-the-data-document", canon(plainWire(data)) == dataBefore, map[string]any{"op": o})
+				}
+			}
+			c.Direct("op's-Data-unchanged-by-execution", canon(plainWire(data)) == dataBefore, map[string]any{"op": o})
+		}
+		w.observe()
+		if reruns > 0 {
+			c.Nontrivial()
+		}
+		c.Dist(fmt.Sprintf("heap-setop:reruns=%d", bucket(reruns)))
+	})
+	if w == nil {
+		return
+	}
+	if hsAbandoned(c, out, txt) || !c.Direct("no-panic", out == "ok", txt) {
+		return
+	}
+	hsFinish(c, w, "heapSetOp")
+}
+
+func hsSetIndependent(c *Ctx, clause string, a, b dom.Node, o hsSetOp) {
 	var ma, mb []hsMut
 	hsMutables(a, nil, map[uintptr]bool{}, 0, &ma)
 	hsMutables(b, nil, map[uintptr]bool{}, 0, &mb)
